@@ -193,3 +193,65 @@ def make_unpack(inc):
 
 make_unpack(False)
 make_unpack(True)
+
+
+def make_unpackdict(inc):
+    @vc('C14.iterunpackdict.%s' % ('keep' if inc else 'drop'), functions=[UP + 'iterunpackdict'], props=['C14', 'C03', 'C02'],
+        assumptions=['keys given explicitly (two keys: the loop body is uniform in their number); the field is addressed by a name that occurs in the header',
+                     'subscripting a cell is an uninterpreted partial function that may raise', 'stateless-body rule (engine meta-theorem)'])
+    def task(h):
+        def body(ctx):
+            def delta(ls, x, dout):
+                row = view_seq(x)
+                f = _t(ls['fidx'])
+                o = out_row(dout, 0)
+                q = smt.fresh_int('q')
+                base = row.len if inc else row.len - 1
+                src = (lambda q_: z3.Select(row.arr, q_)) if inc else (lambda q_: z3.Select(row.arr, z3.If(q_ >= f, q_ + 1, q_)))
+                ctx.oblige('iterunpackdict: one output row = the row%s followed by one cell per key; every other cell unchanged, in place' %
+                           ('' if inc else ' without the dict cell'),
+                           z3.And(dout.len == 1, o.len == base + 2,
+                                  z3.ForAll([q], z3.Implies(z3.And(0 <= q, q < base), z3.Select(o.arr, q) == src(q)))))
+                # the two appended cells: the dict's value for the key, or `missing` when the lookup fails (incl. a row too short to have the cell)
+                cell = z3.Select(row.arr, f)
+                exp = lambda kk: z3.If(z3.Or(f >= row.len, BAD(cell, kk.t)), missing.t, GET(cell, kk.t))
+                ctx.oblige('iterunpackdict: the appended cells are, in key order, cell[key] -- or `missing` when that lookup raises IndexError / KeyError / TypeError',
+                           z3.And(z3.Select(o.arr, base) == exp(k1), z3.Select(o.arr, base + 1) == exp(k2)))
+            box = {}
+            it = h.interp(ctx, loops={(UP + 'iterunpackdict', 1): LoopSpec(delta=delta, label='rows')})
+            spec = it.loop_specs[(UP + 'iterunpackdict', 1)]
+            spec.rebind = lambda ls: box.__setitem__('lookups', [])
+            S = sym_table(ctx, 'S', nmin=1)
+            rows_are_sequences(ctx, S)
+            k1, k2, missing = sym_cell('k1'), sym_cell('k2'), sym_cell('missing')
+            field = sym_cell('field')
+            ctx.assume(smt.cls(field.t) == smt.TEXT)
+            # d[key] on a cell: value, or an exception of one of the three classes the code catches (anything else would escape)
+            GET = z3.Function('dict_item', smt.V, smt.V, smt.V)
+            BAD = z3.Function('dict_item_fails', smt.V, smt.V, z3.BoolSort())
+
+            def getitem_hook(interp, obj, idx, node):
+                return None
+            orig_getitem = it.getitem
+
+            def getitem(obj, idx, node=None):
+                if isinstance(obj, SCell) and (idx is k1 or idx is k2):
+                    if ctx.branch(BAD(obj.t, idx.t), 'the lookup in the cell fails'):
+                        box['lookups'].append(missing.t)
+                        it.raise_('KeyError', idx, node)
+                    v = GET(obj.t, idx.t)
+                    box['lookups'].append(v)
+                    return SCell(v)
+                return orig_getitem(obj, idx, node)
+            it.getitem = getitem
+            res = run_generator(it, closure_of(it, UP + 'iterunpackdict'), [S, field, PyList([k1, k2], 'list'), inc, 1000, missing])
+            if res.exc is not None:
+                inloop = getattr(ctx, 'in_iteration', None)
+                ctx.oblige('iterunpackdict: only ValueError for an unknown field (before any row) or IndexError for a row too short for the field escapes',
+                           z3.BoolVal((res.exc.kind == 'ValueError' and inloop is None) or (res.exc.kind == 'IndexError' and inloop is not None)), res.exc.origin or '')
+        h.explore(body)
+    return task
+
+
+make_unpackdict(False)
+make_unpackdict(True)
